@@ -735,7 +735,7 @@ class Unit:
             raise Unsupported("bad //@item: " + args)
         rel, kind, name, rest = m.groups()
         derive = None
-        md = re.search(r"derive=([\w,]*)", rest)
+        md = re.search(r"(?<![A-Za-z_])derive=([\w,]*)", rest)
         if md:
             derive = [d for d in md.group(1).split(",") if d]
         toks, items = self.load(rel)
@@ -743,6 +743,17 @@ class Unit:
         if len(cands) != 1:
             raise Unsupported("lost anchor: %s %s in %s (%d matches)" % (kind, name, rel, len(cands)))
         it = cands[0]
+        me = re.search(r"expect_derive=([\w,]*)", rest)
+        if me:
+            # the unit restates the output of these derives; they must still be what the repository asks the compiler to generate
+            attrs_txt = text_of(it.toks[it.pre:it.start])
+            derived = set()
+            for dm in re.finditer(r"#\s*\[\s*derive\s*\(([^)]*)\)\s*\]", attrs_txt):
+                derived |= {d.strip().split("::")[-1] for d in dm.group(1).split(",") if d.strip()}
+            for want_d in [d for d in me.group(1).split(",") if d]:
+                if want_d not in derived:
+                    raise Unsupported("lost anchor: %s %s no longer derives %s (the unit restates that derive)" % (kind, name, want_d))
+            self.log.setdefault("restated_derives", []).append({"item": "%s %s" % (kind, name), "derives": me.group(1).split(",")})
         body, dd, da = strip_docs_attrs(it.toks[it.start:it.end])
         self.log["dropped_docs"] += dd
         self.log["dropped_attrs"] += da + sum(1 for t in it.toks[it.pre:it.start] if t.text == "#")
